@@ -1,10 +1,35 @@
 (* C02 — garbage collection never invalidates a value the program can still use.
-   Statements only; proofs in Cao.GcProofs.  What is proved is the collector: given the root set
-   the interpreter hands it (value stack, globals, closures of the active call frames, open
-   upvalues) and the guarded objects, no reachable object is freed or changed.  That every value an
-   instruction or native function is operating on is in that root set at every allocation point is
-   NOT a theorem here: it is checked on the implementation by forced-collection schedules with
-   quarantine and a heap audit (see the manifest: partial). *)
+   Statements only; proofs in Cao.GcProofs (the collector) and Cao.VmGcClosed / VmGcReach / VmGcLink (the collector
+   tied to the VM model).
+
+   PROVED
+   1. The collector (Gc.v = RuntimeData::gc as mark + sweep over an object graph): given the root set the interpreter
+      hands it and the guarded objects, no reachable object is freed or changed; marking is sound and terminates
+      (C02_gc_preserves_reachable, C02_mark_sound, C02_mark_terminates).
+   2. The collector at the instruction boundaries of the VM model (Vm.v).  VmGcRoots.v reads off a VM state what
+      runtime.rs reads: [vm_roots] (live value-stack slots, closure_object of every frame, every node of the
+      open-upvalue list, assigned globals) and [vm_kids] (table: the (key, value) pairs of CaoLangTable::iter; closure:
+      its upvalues; upvalue: the value at `location` - the raw stack slot while open, its own field when closed;
+      nothing else).  [state_closed] = no dangling address anywhere the collector or an instruction looks.
+      - C02_vm_initial_states_closed, C02_vm_step_keeps_closed, C02_vm_run_keeps_closed: state_closed holds in the
+        fresh and in every cleared VM and is kept by EVERY instruction (all 47 opcodes, the 17 natives of the menu
+        incl. min/max/sorted/to_array with their nested runs) for ARBITRARY bytecode; the heap never shrinks.
+      - C02_collection_between_instructions / C02_collection_after_run: at every instruction boundary of every
+        execution from a closed state, and when a run has ended, a collection terminates, keeps every object
+        reachable from the VM's roots in place with the same references, frees exactly the unreachable ones and
+        leaves a closed heap.
+      - C02_operands_reachable: everything the next instruction can dereference (stack operands, locals, globals,
+        the running frame's closure, its upvalues and the values they designate, the open-upvalue list) is
+        reachable from the roots, hence survives.
+   NOT PROVED (checked on the implementation by the forced-collection schedules with quarantine and heap audit,
+   see the manifest: partial)
+   - collections in the MIDDLE of an instruction or native: that every temporary held across an allocation point
+     (e.g. the closure that RegisterUpvalue has popped while it allocates the upvalue, the table a native is
+     filling) is rooted or guarded at that point.  The VM model allocates without collecting; guards (Protected
+     objects) exist only on the collector side of the model.
+   - that [vm_kids]/[vm_roots] are what runtime.rs traces is a hand transcription (tied to the code by the heap
+     dumps compared in C02Check.v); 32-bit hash collisions of table keys are not modelled; when the == / hash of a
+     table key does not return (cyclic table as a key, A-37) the model keeps everything the table holds. *)
 From Coq Require Import NArith List Bool.
 Import ListNotations.
 From stdpp Require Import gmap.
@@ -46,3 +71,84 @@ Example C02_nonvacuous :
   Some (map_to_list (list_to_map [(1%N, Obj White [2%N]); (2%N, Obj White []);
                                   (4%N, Obj Protected [5%N]); (5%N, Obj White [])] : gmap N obj)).
 Proof. vm_compute. reflexivity. Qed.
+
+(* ------------------------------------------------------------------ *)
+(* the collector at the instruction boundaries of the VM model         *)
+(* ------------------------------------------------------------------ *)
+From Cao Require Import Stacks Vm VmGcRoots VmGcClosed VmGcReach VmGcLink VmGcWitness.
+
+Theorem C02_vm_initial_states_closed :
+  state_closed fresh_state /\ forall s, state_closed (clear_state s).
+Proof. exact (conj fresh_state_closed clear_state_closed). Qed.
+Print Assumptions C02_vm_initial_states_closed.
+
+(* one instruction of the nested semantics (natives re-enter the interpreter through run_at), any opcode, any
+   bytecode, any instruction pointer *)
+Theorem C02_vm_step_keeps_closed :
+  forall F bld P max_instr depth ip s, state_closed s ->
+  match step F bld P (run_at F bld P false max_instr depth) ip s with
+  | SNext _ s' | SExit s' | SErr _ _ s' => state_closed s' /\ length (st_heap s) <= length (st_heap s')
+  | SStop _ _ => True
+  end.
+Proof. exact step_run_at_closed. Qed.
+Print Assumptions C02_vm_step_keeps_closed.
+
+Theorem C02_vm_run_keeps_closed :
+  forall F bld budget P s o s',
+  state_closed s -> run F bld budget P s = (o, s') -> (forall a, o <> OAbort a) ->
+  state_closed s' /\ length (st_heap s) <= length (st_heap s').
+Proof. exact run_closed. Qed.
+Print Assumptions C02_vm_run_keeps_closed.
+
+Theorem C02_collection_between_instructions :
+  forall F bld P max_instr s0 s,
+  state_closed s0 -> boundary F bld P max_instr s0 s ->
+  exists h', gc (vm_abs F s) (vm_roots s) = Some h' /\
+    (forall a, reach (vm_abs F s) (vm_roots s) a ->
+       exists o, hget (st_heap s) a = Some o /\ h' !! a = Some (Gc.Obj White (vm_kids F s o))) /\
+    (forall a, is_Some (h' !! a) -> reach (vm_abs F s) (vm_roots s) a) /\
+    closed h' /\ no_gray h'.
+Proof. exact collection_between_instructions. Qed.
+Print Assumptions C02_collection_between_instructions.
+
+Theorem C02_collection_after_run :
+  forall F bld budget P s0 o s,
+  state_closed s0 -> run F bld budget P s0 = (o, s) -> (forall a, o <> OAbort a) ->
+  exists h', gc (vm_abs F s) (vm_roots s) = Some h' /\
+    (forall a, reach (vm_abs F s) (vm_roots s) a ->
+       exists ob, hget (st_heap s) a = Some ob /\ h' !! a = Some (Gc.Obj White (vm_kids F s ob))) /\
+    (forall a, is_Some (h' !! a) -> reach (vm_abs F s) (vm_roots s) a) /\
+    closed h' /\ no_gray h'.
+Proof. exact collection_after_run. Qed.
+Print Assumptions C02_collection_after_run.
+
+Theorem C02_operands_reachable :
+  forall F s,
+    (forall k a, speek s k = VObj a -> reach (vm_abs F s) (vm_roots s) a) /\
+    (forall a, snd (spop s) = VObj a -> reach (vm_abs F s) (vm_roots s) a) /\
+    (forall a, slast s = VObj a -> reach (vm_abs F s) (vm_roots s) a) /\
+    (forall i a, sget s i = VObj a -> reach (vm_abs F s) (vm_roots s) a) /\
+    (forall i a, nth_error (st_globals s) i = Some (Some (VObj a)) -> reach (vm_abs F s) (vm_roots s) a) /\
+    (forall a, st_open s = Some a -> reach (vm_abs F s) (vm_roots s) a) /\
+    (forall f ca, In f (st_calls s) -> fr_clo f = Some ca ->
+       reach (vm_abs F s) (vm_roots s) ca /\
+       forall h ar ups ua, hget (st_heap s) ca = Some (OClo h ar ups) -> In ua ups ->
+         reach (vm_abs F s) (vm_roots s) ua /\
+         forall u b, hget (st_heap s) ua = Some (OUp u) ->
+           match u_loc u with Some l => sraw_get s l | None => u_val u end = VObj b ->
+           reach (vm_abs F s) (vm_roots s) b).
+Proof. exact operands_reachable. Qed.
+Print Assumptions C02_operands_reachable.
+
+(* the hypotheses are satisfiable on non-trivial states: a hand-built state with a table holding a string, a closure
+   with an open and a closed upvalue, globals, garbage (the garbage is dropped, the rest kept, VmGcWitness.v); a
+   boundary reached by three instructions from the fresh VM; the end state of a run *)
+Example C02_vm_nonvacuous :
+  state_closed wit_state /\
+  ((fun h' => map (fun a => bool_decide (is_Some (h' !! a))) [0; 1; 2; 3; 4; 5; 6; 7; 8; 9; 10]%N)
+     <$> gc (vm_abs F0 wit_state) (vm_roots wit_state)
+   = Some [true; true; true; true; true; true; false; false; true; true; false]) /\
+  (exists s, boundary F0 Debug VmUpvalueSem.dead_slot_program 100%N wit_s0 s /\ length (st_heap s) = 2 /\
+             vm_roots s = [1%N]) /\
+  state_closed wit_s0.
+Proof. exact (conj wit_state_closed (conj wit_collection (conj wit_boundary wit_s0_closed))). Qed.
